@@ -190,9 +190,10 @@ pub fn c14(run: &mut Run) -> Stats {
     for (name, sq, sth) in [("utf8", 3usize, 4usize), ("dotcap", 6, 7), ("icase", 4, 4), ("look", 3, 4), ("onechar", 2, 3), ("lit", 2, 2), ("vset", 2, 3), ("icaseback", 5, 6)] {
         let sp = profiles::by_name(name).unwrap();
         let size = if thorough { sth } else { sq };
-        let mut alphabet: Vec<u32> = vec!['a' as u32, 'é' as u32, '€' as u32, 0x1F600, '\n' as u32];
+        // U+10061: a supplementary character whose low 16 bits are an ASCII letter (truncation to a code unit)
+        let mut alphabet: Vec<u32> = vec!['a' as u32, 'é' as u32, '€' as u32, 0x1F600, '\n' as u32, 0x10061];
         for &c in &sp.alphabet {
-            if !alphabet.contains(&c) && alphabet.len() < 7 {
+            if !alphabet.contains(&c) && alphabet.len() < 8 {
                 alphabet.push(c);
             }
         }
@@ -240,7 +241,7 @@ pub fn c14(run: &mut Run) -> Stats {
     let n_raw = raw_patterns.len();
     total = total.merge(raw_slices(run, &raw_patterns, if thorough { 5 } else { 4 }));
     run.rule = format!(
-        "agreement: every AST of the profiles utf8, dotcap, icase, look, 1char, lit, vset, icaseback (fold partners of different lengths and planes under case-insensitive backreferences) up to the size bound x flags x every string over {{a, é, €, U+1F600, LF (+ profile letters)}} up to length 3 (4 thorough) x every start on a char boundary: find_from_utf16 on the UTF-16 encoding (offsets mapped back) == find_from, and find_from_ucs2 likewise on BMP-only text; robustness: {} patterns x every u16 slice over {{0061, D83D, DE00, DC00, 20AC}} up to length {} (lone and swapped surrogates) x every start 0..=len+1 x both entry points: terminates (fuel), no panic, ranges within the slice, starts increase; built with debug assertions; non-trivial = a match exists",
+        "agreement: every AST of the profiles utf8, dotcap, icase, look, 1char, lit, vset, icaseback (fold partners of different lengths and planes under case-insensitive backreferences) up to the size bound x flags x every string over {{a, é, €, U+1F600, LF, U+10061 (+ profile letters)}} up to length 3 (4 thorough) x every start on a char boundary: find_from_utf16 on the UTF-16 encoding (offsets mapped back) == find_from, and find_from_ucs2 likewise on BMP-only text; robustness: {} patterns x every u16 slice over {{0061, D83D, DE00, DC00, 20AC}} up to length {} (lone and swapped surrogates) x every start 0..=len+1 x both entry points: terminates (fuel), no panic, ranges within the slice, starts increase; built with debug assertions; non-trivial = a match exists",
         n_raw,
         if thorough { 5 } else { 4 }
     );
